@@ -17,7 +17,7 @@ ENV.pop("GOSUMDB", None)
 
 
 def run(cmd, cwd, timeout=1500):
-    p = subprocess.run(cmd, cwd=cwd, env=ENV, shell=True, capture_output=True, text=True, timeout=timeout)
+    p = subprocess.run(cmd, cwd=cwd, env=ENV, shell=True, capture_output=True, text=True, errors="replace", timeout=timeout)
     return p.returncode, (p.stdout + p.stderr)[-3000:]
 
 
